@@ -58,4 +58,17 @@ Outcome(c, h, msg, px, sx) ==
            tx |-> IF c.relay THEN <<Tx(PhysAddr(LevelAddr(c.lvl + 1), 0, px, sx, TRUE), h, msg, TRUE)>> ELSE <<>>]
   ELSE IF c.addr = Default THEN Nothing(h.type)                     \* ---- for somebody else, but this node has no place in the tree
   ELSE [ret |-> 0, queued |-> FALSE, tx |-> Forward(c, h, msg, px, sx)]   \* ---- for somebody else: pass it along
+
+\* ---------------- origin side: what write(frame, traffic_direct) of a single-frame message puts on air
+\* h = the caller's header (from is overwritten with the node's address), direct = 56 (AUTO_ROUTING, 0o70) or the logical
+\* address of the node the frame is handed to un-routed ("multicast to the first node, routed normally from there")
+Auto == 56
+WriteOutcome(c, h0, msg, direct, px, sx) ==
+  LET h == [h0 EXCEPT !.from = c.addr] IN
+  IF direct = Auto THEN
+       IF h.to = c.addr THEN [queued |-> TRUE, tx |-> <<>>, waits |-> FALSE]            \* loop-back: straight into the own queue
+       ELSE [queued |-> FALSE, tx |-> <<Tx(Toward(c, h.to, px, sx), h, msg, FALSE)>>,
+             waits |-> IsAckT(h.type) /\ NextHop(c.addr, h.to) # h.to]                   \* a NETWORK_ACK is awaited only over >= 2 hops
+  ELSE \* handed, without radio acknowledgement, to pipe 0 of `direct`; nothing is awaited
+       [queued |-> FALSE, tx |-> <<Tx(Pipe0Of(c, direct, px, sx), h, msg, TRUE)>>, waits |-> FALSE]
 =============================================================================
